@@ -130,6 +130,18 @@ class SymStr:
                 return s.strip()
         return s
 
+    def replace(self, old, new, count=-1):
+        """str.replace for a single concrete character `old` (each free position forks on being that character)"""
+        if not isinstance(old, _str) or len(old) != 1 or not isinstance(new, _str) or count != -1:
+            raise core.ProxyLeak(f'SymStr.replace({old!r}, {new!r}) is not modelled')
+        out = []
+        for ch in self.c:
+            if bool(ch_eq(ch, old)) if not isinstance(ch, _str) else ch == old:
+                out.extend(new)
+            else:
+                out.append(ch)
+        return SymStr.mk(out)
+
     def lstrip(self):
         s = self
         while len(s) and bool(_is_space(s.c[0])):
